@@ -152,7 +152,7 @@ def main(argv=None):
                              cwd=VERIF, env=env, stdout=log, stderr=subprocess.STDOUT)
         procs.append((sh, p, out, log))
     merged = {'evaluations': 0, 'status': {'pass': 0, 'fail': 0, 'inconclusive': 0}, 'inconclusive': {},
-              'tags': {}, 'tags_nontrivial': {}, 'fails': {}, 'samples': [], 'enumerated': 0}
+              'tags': {}, 'tags_nontrivial': {}, 'tags_inconclusive': {}, 'fails': {}, 'samples': [], 'enumerated': 0}
     nt = set()
     herr = None
     for sh, p, out, log in procs:
@@ -168,7 +168,7 @@ def main(argv=None):
         merged['enumerated'] += r.get('enumerated', 0)
         for k in ('pass', 'fail', 'inconclusive'):
             merged['status'][k] += r['status'][k]
-        for key in ('inconclusive', 'tags', 'tags_nontrivial'):
+        for key in ('inconclusive', 'tags', 'tags_nontrivial', 'tags_inconclusive'):
             for k, v in r[key].items():
                 merged[key][k] = merged[key].get(k, 0) + v
         nt.update(r['nontrivial_hashes'])
@@ -251,6 +251,7 @@ def main(argv=None):
             'inconclusive_by_reason': merged['inconclusive'],
             'class_tallies_all_cases': dict(sorted(merged['tags'].items())),
             'class_tallies_distinct_nontrivial': dict(sorted(merged['tags_nontrivial'].items())),
+            'class_tallies_inconclusive': dict(sorted(merged['tags_inconclusive'].items())),
             'excluded_known': excluded_known,
             'violation_buckets': {b: f['count'] for b, f in viol.items()},
             'tolerances': getattr(mod, 'TOLERANCES', {}),
